@@ -522,6 +522,9 @@ bool run_fpvec(const Json &ops, long long p0, RunResult &r, const char *tn, bool
         long long s = op.get_int("s", 1);
         if (o == "unit") { size_t i = (size_t) op["i"].as_int(); pool[a] = i; model[a].clear(); model[a][i] = 1; }
         else if (o == "copy") { V t(pool[b]); pool[a] = t; model[a] = model[b]; }
+        else if (o == "move") { V t(pool[b]); V u(std::move(t)); pool[a] = std::move(u); model[a] = model[b]; }   // move construction + move assignment: entries and modulus travel
+        else if (o == "assign") { pool[a] = pool[b]; model[a] = model[b]; }                                        // a == b: plain self assignment
+        else if (o == "self_assign") { V &ref = pool[a]; pool[a] = ref; pool[a] = std::move(ref); }                 // copy and move self assignment keep the vector
         else if (o == "build") {
             // a vector with many coordinates and chosen residues (often p-1, p-2, (p-1)/2), assembled through the public
             // operations only: sum of scaled unit vectors
@@ -641,6 +644,7 @@ Json gen_c18(sim::Rng &rng, uint64_t index) {
             Json o = Json::object(); o["op"] = names[rng.below(10)];
             o["a"] = (int) rng.below(3); o["b"] = (int) rng.below(3); o["c"] = (int) rng.below(3);
             o["i"] = (long long) rng.below(12);
+            if (rng.chance(120)) { static const char *life[] = { "move", "assign", "self_assign", "move" }; o["op"] = life[rng.below(4)]; }
             if (many && rng.chance(300)) {
                 o["op"] = "build";
                 Json cv = Json::array(); int cnt = (int) rng.range(2, 40);
@@ -701,6 +705,12 @@ public:
                 int64_t cap = (int64_t) 2147483647 / std::max(1, g.n);
                 for (auto &e : g.e) e.w = rng.range(std::max<int64_t>(1, cap * 3 / 4), cap);
                 g.wexp = 0;
+            }
+            else if (p == "C12" && g.wtype == "double" && !g.inexact && rng.chance(200)) {
+                // magnitude family: the same numerators at 2^-70 .. 2^-55 (all differences far below machine epsilon in absolute
+                // terms) or 2^40; every sum stays exact, so distances and ties are exactly those of the unscaled graph
+                g.wexp += (int) rng.pick(std::vector<int> { -70, -60, -55, 40 });
+                g.family += "+mag";
             }
             cs = Json::object();
             cs["graph"] = gen::to_json(g);
